@@ -140,6 +140,18 @@ def run_act(ctx, p):
     ok = ctx.judge('action', err <= TOL * mag, dict(sig, kind='value'),
                    lambda: '%s (%d values) * points (form %s, N=%d): differs from R p + t by %.3g (allowed %.3g); got %s want %s; pose=%s' % (
                        cname, M, form, N, err, TOL * mag, core.short(G, 300), core.short(want, 300), core.short(mats, 500)))
+    if M > 1 and hasattr(X, 'inv'):
+        # X.inv() * (X * p) = p for every value of an object holding several: value k of the inverse takes column k back to p
+        try:
+            Xi = X.inv()
+            back = np.hstack([np.asarray(Xi[k] * G[:, k], dtype=np.float64).reshape(d, 1) for k in range(M)]) if len(Xi) == M else None
+        except Exception as e:
+            ctx.bad('laws', dict(sig, kind='raised', exc=type(e).__name__, where=_where(e)), '%s (%d values) .inv() applied to the transformed point raised %r' % (cname, M, e))
+            back = False
+        if back is not False:
+            e2 = float(np.max(np.abs(back - P[:, :1]))) if back is not None else math.inf
+            ctx.judge('laws', e2 <= TOL * mag, dict(sig, kind='inverse_of_sequence_does_not_undo'),
+                      lambda: '%s (%d values): X.inv()[k] * (X * p)[:, k] differs from p by %.3g (allowed %.3g)' % (cname, M, e2, TOL * mag))
     ctx.cell('act', cname, sig['form'], 'N=%d' % N if form == 'array2d' else 'vec', 'M=%d' % M)
     if ok and not all(np.allclose(m, np.eye(len(m))) for m in mats) and np.any(P != 0):
         ctx.nontrivial(cname, form, N, M, [np.round(np.asarray(m), 6).tolist() for m in mats], np.round(P, 6).tolist())
